@@ -300,6 +300,85 @@ func checkC05(w *core.W) {
 			}
 		})
 	}
+	// ---- dictionaries in which one key has several values. The state space quarantines them (Dict.Count
+	// counts keys, a recorded finding), so they get their own pass here, judged on members only: a call with
+	// the repeated key is an error with and without ?:, other keys answer, >> and >>> keep every (key, value) pair.
+	if w.Shard == 0 && w.Round > 0 {
+		multi := []string{
+			`{|@, @value| (1, 2), (1, 3), (2, 9)}`, `{1: 2} | {1: 3}`, `{1: 2} with (@: 1, @value: 3)`, `{1: 2, 2: 9} with (@: 1, @value: 3)`,
+			`{"a": 1} | {"a": 2} | {"b": 3}`, `{|@, @value| (1, 2), (1, 3), (1, 4)}`, `{1: 2, 2: 9} | {1: 3, 2: 8}`,
+		}
+		for _, src := range multi {
+			src := src
+			w.Case(func() string { return "keyed-multi ## call / >> / >>> on " + src }, func() {
+				c := obs.Run(src)
+				if !c.OK() {
+					w.Fail("wrong", "multi-dict|operand-does-not-evaluate", src, "")
+					return
+				}
+				cm, err := obs.Denote(c.V)
+				ps, ok := pairsOf(cm)
+				if err != nil || !ok {
+					w.Fail("wrong", "multi-dict|operand-not-a-set-of-pairs", src, "")
+					return
+				}
+				cmpMembers := func(op string, o obs.Outcome, want *model.V, wantErr bool) {
+					w.Eval(true)
+					w.AddTransitions(1)
+					wit := strings.Replace(op, "x", "("+src+")", 1)
+					switch {
+					case o.Panic != "":
+						w.Fail("panic", "multi-dict|"+o.Panic, wit, "")
+					case o.Err != nil:
+						if !wantErr {
+							w.Fail("wrong", "multi-dict|"+op+"|error-instead-of-value", wit, core.NormMsg(o.Err.Error()))
+						}
+					case wantErr:
+						w.Fail("wrong", "multi-dict|"+op+"|value-instead-of-error", wit, "")
+					default:
+						if got, err := obs.Denote(o.V); err != nil || !model.Equal(got, want) {
+							g := "?"
+							if got != nil {
+								g = model.Src(got)
+							}
+							w.Fail("wrong", "multi-dict|"+op+"|wrong-value", wit, "got "+g+" want "+model.Src(want))
+						}
+					}
+				}
+				keys := map[string]*model.V{}
+				for _, p := range ps {
+					keys[p.k.Enc()] = p.k
+				}
+				keys["absent"] = model.Num(77)
+				for _, k := range keys {
+					res := callModel(ps, k)
+					kv, _ := c9build(k)
+					var want *model.V
+					if len(res) == 1 {
+						want = res[0]
+					}
+					cmpMembers("x("+model.Src(k)+")", obs.Eval(call, obs.Scope("x", c.V, "k", kv)), want, len(res) != 1)
+					if len(res) == 0 {
+						want = fallback
+					}
+					cmpMembers("x("+model.Src(k)+`)?:"fallback"`, obs.Eval(callFb, obs.Scope("x", c.V, "k", kv)), want, len(res) > 1)
+				}
+				for fi, f := range c05Fns {
+					var out []*model.V
+					fails := false
+					for _, p := range ps {
+						nv, ok := f.f(p.k, p.v)
+						if !ok {
+							fails = true
+							break
+						}
+						out = append(out, model.Tup("@", p.k, p.attr, nv))
+					}
+					cmpMembers(f.src, obs.Eval(fnExpr[fi], obs.Scope("x", c.V)), model.Set(out...), fails)
+				}
+			})
+		}
+	}
 	if w.Shard == 0 && len(keyed) > 2 {
 		w.Sample(map[string]string{"keyed_state": keyed[len(keyed)/2].Prog, "shape": keyed[len(keyed)/2].Key})
 		sp.ReportQuarantine()
@@ -308,6 +387,6 @@ func checkC05(w *core.W) {
 
 var C05 = core.Check{
 	ID: "C05", Level: "exploration", Fn: checkC05, Rounds: func(string) int { return 2 },
-	Rule:   "operands = every state of the reachable-representation space (generation 0: every construction path of every set of <=2 members over the member alphabet with forced key collisions, offsets, holes; plus one generation of operator results). For every state: x(k) and x(k)?:d for every key present and 10 fixed arguments (absent, non-integer, wrong kind); 3 >> and 2 >>> transformers; n\\x for n in -2..2 and 0.5; a ++ b for every ordered pair of states. The model is the set of (@:k, X:v) pairs: call = the unique value paired with k, error for none / several, fallback exactly for none; >> rewrites each value keeping keys; ++ = left union right shifted by count(left); n\\ shifts every key. non-trivial = keyed operand with at least one matching pair / non-empty operands",
+	Rule:   "operands = every state of the reachable-representation space (generation 0: every construction path of every set of <=2 members over the member alphabet with forced key collisions, offsets, holes; plus one generation of operator results). For every state: x(k) and x(k)?:d for every key present and 10 fixed arguments (absent, non-integer, wrong kind); 3 >> and 2 >>> transformers; n\\x for n in -2..2 and 0.5; a ++ b for every ordered pair of states; plus 7 dictionaries with a repeated key (quarantined from the state space because their count is wrong) under the same calls and transformers, judged on members. The model is the set of (@:k, X:v) pairs: call = the unique value paired with k, error for none / several, fallback exactly for none; >> rewrites each value keeping keys; ++ = left union right shifted by count(left); n\\ shifts every key. non-trivial = keyed operand with at least one matching pair / non-empty operands",
 	Assume: []string{"reference model of keyed collections as sets of (@,x) pairs", "states that are not sets of pairs are only checked for crashes (the property speaks about keyed collections)", "a transformer result that is not representable as a char/byte may be either an error or a generic tuple"},
 }
